@@ -289,6 +289,8 @@ def check_case(case, sess: Session):
         return
     sess.evaluations += 1
     sess.count("faulted_scenarios")
+    sess.sample({"sites": case["sites"], "exception": EXCS[case["exc"]].__name__, "garbage": case["garbage"] if "boot-garbage" in case["sites"] else None,
+                 "turns": case["turns"][:1], "failpoint_hits": f["hits"]})
     label = "+".join(case["sites"])
     single = case["sites"][0] if len(case["sites"]) == 1 else None
     for s in case["sites"]:
